@@ -618,6 +618,8 @@ type c09Vals struct {
 	kcolV    string
 	chiCert  bool
 	ci       int
+	ciCert   bool
+	ciDone   bool
 	deg      int
 	degCert  bool
 	degDone  bool
@@ -774,9 +776,14 @@ func c09Compute(f c09Form, flags string, order []int, bf bool, fail func(string,
 			}
 			v.kcol = sb.String()
 			v.kcolV = sv.String()
-		case 'e':
+		case 'e', 'E':
+			if v.ciDone {
+				continue
+			}
+			v.ciDone = true
 			ci, b := graph.ChromaticIndex(g)
 			v.ci = ci
+			v.ciCert = c09EdgeColouring(eg, c09BytesToInts(b), ci) == ""
 			if msg := c09EdgeColouring(eg, c09BytesToInts(b), ci); msg != "" {
 				fail("%s: ChromaticIndex=%d with %v: %s", f.name, ci, b, msg)
 			}
@@ -963,7 +970,7 @@ func c09Run(args []string) Result {
 				if w.chi != v.chi || w.kcol != v.kcol {
 					fail("%s: chromatic number %d / k-colourability %s differ from dense %d / %s", nm, w.chi, w.kcol, v.chi, v.kcol)
 				}
-			case 'e':
+			case 'e', 'E':
 				if w.ci != v.ci {
 					fail("%s: chromatic index %d differs from dense %d", nm, w.ci, v.ci)
 				}
@@ -1022,6 +1029,11 @@ func c09Run(args []string) Result {
 			parts = append(parts, fmt.Sprintf("DEGo=%d:%s", dd, showInts(oo)))
 		case 'C':
 			parts = append(parts, fmt.Sprintf("CHI=%d cert=%s KCOL=%s", v.chi, c09Verdict(v.chiCert), v.kcolV))
+		case 'E':
+			parts = append(parts, fmt.Sprintf("CI=%d cert=%s", v.ci, c09Verdict(v.ciCert)))
+		case 'y':
+			ci, b := graph.ChromaticIndex(forms[0].g)
+			parts = append(parts, fmt.Sprintf("CIo=%d:%s", ci, showInts(c09BytesToInts(b))))
 		case 'x':
 			chi, col := graph.ChromaticNumber(forms[0].g)
 			ks := []string{}
@@ -1485,7 +1497,7 @@ func c09Flags(g EG, tier string) string {
 		me = 11
 	}
 	if n <= 10 && m <= me {
-		fl += "e"
+		fl += "eE"
 	}
 	if n <= 6 {
 		fl += "n"
@@ -1546,7 +1558,7 @@ func c09Gen(r *rand.Rand, tier string, emit func(string)) {
 				}
 				fl := "qQcCdD"
 				if len(g.E) <= 9 {
-					fl += "e"
+					fl += "eE"
 				}
 				emit("c09 " + fl + " " + g.Tokens())
 			} else {
